@@ -110,6 +110,7 @@ type World struct {
 	lastDigest     []byte
 	lastDigestStep int
 	bulkGraphs     []*data.ContentHash_Graph // graphs attested by bulkAttest steps
+	forceGas       uint64                    // replay: the recorded gas limit of the next delivery
 }
 
 type originRef struct{ ID, Source, Contract string }
@@ -165,7 +166,37 @@ func (w *World) Deliver(kind string, msg sdk.Msg) *MsgStep {
 		return &MsgStep{Index: w.StepIdx, Kind: kind, Msg: msg, Res: chain.Result{Err: fmt.Errorf("tx decode: %w", err), Stage: "decode"}, Pre: pre, Post: pre}
 	} else {
 		msg = dec
-		res = w.C.Deliver(msg)
+		gas := w.forceGas
+		if w.T != nil && w.Profile != nil && w.Profile.GasSqueezePct > 0 && w.chance("gas?squeeze", w.Profile.GasSqueezePct) {
+			// the gas limit of a transaction is not an input of the message's meaning: measure what the message
+			// needs on a discarded branch, then deliver it with a limit just below, exactly at, or a little above
+			// that (a limit that does not suffice must fail the message without effect)
+			var need uint64
+			var wouldPass bool
+			w.C.Sandbox(func() {
+				if d2, err := wireRoundTrip(w.C, msg); err == nil {
+					r := w.C.Deliver(d2)
+					need, wouldPass = r.GasUsed, r.OK
+				}
+			})
+			if wouldPass && need > 0 {
+				w.Flags["gas-squeezed-delivery"] = true
+				extra := []uint64{0, 1, 500, 4000, 12000, 25000, 29999, 60000}[w.intn("gas.extra", 8)]
+				gas = need + extra
+				if w.chance("gas?short", 20) {
+					gas = need - 1 - uint64(w.intn("gas.short", 3))*need/4
+					if gas == 0 {
+						gas = 1
+					}
+				}
+			}
+		}
+		if gas > 0 {
+			w.Trace.Steps[len(w.Trace.Steps)-1].Gas = gas
+			res = w.C.DeliverGas(msg, gas)
+		} else {
+			res = w.C.Deliver(msg)
+		}
 	}
 	w.Trace.SetResult(res.OK, res.Err)
 	post := pre
